@@ -188,7 +188,7 @@ def run_tlc(module, cfg, scratch, env=None, workers=None, timeout=1800, simulate
     verdict; raises MachineryError for a crash / timeout."""
     cwd = cwd or SPECS
     meta = scratch.mkdir("tlc-meta-%d" % int(time.time() * 1000000 % 10**9))
-    jopts = ["-Xmx" + heap, "-Xss128m", "-XX:+UseParallelGC"]
+    jopts = ["-Xmx" + heap, "-Xss128m", "-XX:+UseParallelGC", "-Djava.io.tmpdir=" + meta]     # TLC's tlc-<n> temp dir goes with the scratch
     if dfs:
         jopts.append("-Dtlc2.tool.queue.IStateQueue=StateDeque")
     cmd = ["java"] + jopts + ["-cp", _tlc_classpath(), "tlc2.TLC", "-metadir", meta, "-noGenerateSpecTE",
